@@ -135,8 +135,44 @@ def run_case(duration, outcome, tmo, cancel_at):
     return None
 
 
+def stacked():
+    """Wrapping an already wrapped function gives a new, independent wrapper: the inner one keeps its own deadline."""
+    state = {}
+
+    async def main(loop):
+        async def fn():
+            await asyncio.sleep(5.0)
+            return "done"
+        relaxed = timeout(10)(fn)
+        strict = timeout(1)(relaxed)
+        t0 = loop.time()
+        try:
+            await strict()
+            state["strict"] = "returned"
+        except TimeoutError:
+            state["strict"] = ("timeout", loop.time() - t0)
+        t0 = loop.time()
+        try:
+            state["relaxed"] = (await relaxed(), loop.time() - t0)
+        except BaseException as e:  # noqa
+            state["relaxed"] = (repr(e), loop.time() - t0)
+    try:
+        run(main)
+    except Hang as h:
+        return f"stacked timeouts: {h}"
+    if state.get("strict") != ("timeout", 1.0):
+        return f"timeout(1)(timeout(10)(f)) with a 5s function: {state.get('strict')}, expected TimeoutError at 1.0"
+    if state.get("relaxed") != ("done", 5.0):
+        return (f"timeout(10)(f) called directly after it was also wrapped in timeout(1): {state.get('relaxed')}, expected the "
+                f"function's own result after 5.0 (its deadline is 10)")
+    return None
+
+
 def search():
     n = 0
+    p = stacked()
+    if p:
+        return 1, dict(problem=p)
     for outcome in OUTCOMES:
         for duration in (0.0, 0.5, 1.0, 2.0):
             for tmo in (0.5, 1.0, 3.0):
